@@ -22,6 +22,9 @@
 // exactly when annotations were printed, no `Failure:` line for a source problem, the annotation
 // names the planted file and line.  The protocol line is the step model of the command
 // (`exit lint a o`, `exit lsfiles Oa`, …).
+//
+// The same machinery carries part (vii), the import-path family of the linker phase (imports.go):
+// a phaseCase with Imp set plants one import statement of an impKind instead of one of phaseKinds.
 package main
 
 import (
@@ -155,14 +158,30 @@ type phaseCase struct {
 	Multi bool   `json:"two_modules"`
 	Lead  int    `json:"lead_lines"`
 	Names [3]string
+	// the import-path family (imports.go): the kind of import statement planted instead of one of
+	// phaseKinds; Linked = the target file imports the file the statement is planted in; Root = the
+	// directory above work/ and against/ (import paths that leave the module are planted so that a
+	// file EXISTS where they point)
+	Imp    *impKind `json:"import_kind,omitempty"`
+	Linked bool     `json:"target_imports_planted_file,omitempty"`
+	Root   string   `json:"root,omitempty"`
 	// derived
 	Files   map[string]string `json:"files"`
 	Against map[string]string `json:"against_files"`
+	Outside map[string]string `json:"files_outside_the_workspace,omitempty"` // absolute path -> content
 	Line    int               `json:"planted_line"`
+	Stmt    string            `json:"planted_statement,omitempty"`
+	Where   []impPos          `json:"annotation_expected_at_one_of,omitempty"` // import family: (file, line) an annotation may name
+	Extra   []string          `json:"extra_args,omitempty"`
 	Args    []string          `json:"args"`
 }
 
-func (c phaseCase) kind() phaseKind { return phaseKinds[c.Kind] }
+func (c phaseCase) kind() phaseKind {
+	if c.Imp != nil {
+		return phaseKind{Name: "import:" + c.Imp.Name, Group: "import", ScanKeepsPkg: true}
+	}
+	return phaseKinds[c.Kind]
+}
 
 // name of the file with the given role, workspace-relative
 func (c phaseCase) file(role string) string {
@@ -182,6 +201,10 @@ var phaseNamePool = [][3]string{
 }
 
 func (c *phaseCase) build() {
+	if c.Imp != nil {
+		c.buildImport()
+		return
+	}
 	yaml := bufYAML
 	if c.Multi {
 		yaml = strings.Replace(bufYAML, "version: v2\n", "version: v2\nmodules:\n  - path: m1\n  - path: m2\n", 1)
@@ -218,6 +241,14 @@ type phaseExpect struct {
 func (c phaseCase) expect() phaseExpect {
 	k := c.kind()
 	bad := k.Name != "good"
+	// as coded: what `ls-files --include-imports` and `dep graph` do with the import statement
+	lsiFails, dep := k.Missing, "ok"
+	if k.Missing {
+		dep = "notexist"
+	}
+	if c.Imp != nil {
+		bad, lsiFails, dep = c.Imp.Class != "resolves", c.Imp.Lsi, c.Imp.Dep
+	}
 	inT := !c.Multi || c.Loc != "o" // the problem file is in the module of t
 	targeted := false
 	switch c.Form {
@@ -230,6 +261,10 @@ func (c phaseCase) expect() phaseExpect {
 	case "fileipf":
 		// t itself; the files of t's module whose package - as the header scan reads it - is t's
 		targeted = c.Loc == "t" || c.Loc == "s" && k.ScanKeepsPkg
+	}
+	if c.Linked {
+		// the target file (always targeted) imports the planted file: it is compiled as an import
+		targeted = true
 	}
 	// `file.proto#include_package_files=true`: the header scan of every .proto file of t's module
 	// runs inside the controller method; its error is an annotation set
@@ -278,7 +313,7 @@ func (c phaseCase) expect() phaseExpect {
 			e.Exit, e.File, e.Model = 100, c.file(c.Loc), "exit\tlsfiles\tOa"
 		case bad && targeted && k.ScanRejects:
 			e.Exit, e.Failure, e.Model = 1, true, "exit\tlsfiles\tOoA"
-		case bad && targeted && k.Missing:
+		case bad && targeted && lsiFails:
 			e.Exit, e.Failure, e.Model = 1, true, "exit\tlsfiles\tOoX"
 		default:
 			e.Model = "exit\tlsfiles\tOoo"
@@ -289,16 +324,23 @@ func (c phaseCase) expect() phaseExpect {
 		switch {
 		case bad && k.ScanRejects:
 			e.Exit, e.Failure, e.Model = 1, true, "exit\tdepgraph\toA"
-		case bad && k.Missing:
+		case bad && dep == "notexist", bad && dep == "invalid" && depGraphInvalidImportIs100:
 			e.Exit, e.Failure, e.Model = 100, true, "exit\tdepgraph\toI"
+		case bad && (dep == "invalid" || dep == "modcycle"):
+			// as coded: an import path the bucket rejects (absolute, leaves the root) comes back from
+			// ModuleDeps() as the plain normalpath error, a cycle between modules as ModuleCycleError
+			e.Exit, e.Failure, e.Model = 1, true, "exit\tdepgraph\toX"
 		default:
 			e.Model = "exit\tdepgraph\too"
 		}
 	case "format":
 		// `format -d --exit-code`; the formatter parses, it does not link; a parse error is a plain
 		// failure (as coded: the property lists only --exit-code for format)
-		diff := false
+		diff := c.Imp != nil && c.importFormatDiff()
 		for _, role := range []string{"t", "s", "o"} {
+			if c.Imp != nil {
+				break
+			}
 			roleTargeted := false
 			switch c.Form {
 			case "dir", "dot", "tar":
@@ -326,6 +368,9 @@ func (c phaseCase) expect() phaseExpect {
 		}
 	}
 	e.Why = fmt.Sprintf("kind=%s in %s, input %s, targeted=%v, header scan aborts=%v", k.Name, c.Loc, c.Form, targeted, scanAbort)
+	if c.Imp != nil {
+		e.Why = fmt.Sprintf("%s planted in %s (%s), input %s, that file is compiled=%v", c.Imp.describe(c.Stmt), c.Loc, c.file(c.Loc), c.Form, targeted)
+	}
 	return e
 }
 
@@ -352,6 +397,7 @@ func (c phaseCase) args(errFormat string) []string {
 		in = []string{"../ws.tar"}
 		against = "../against.tar"
 	}
+	tail = append(tail, c.Extra...)
 	switch c.Cmd {
 	case "lint":
 		head = []string{"lint"}
@@ -487,6 +533,36 @@ type phaseJob struct {
 	results []procResult
 }
 
+// independentRuns: which member of an import cycle of several files protocompile reports - and
+// whether one, two or all of them - depends on the order in which its concurrent tasks happen to
+// run: every task checks for a cycle when it starts waiting for an import, the one that sees the
+// closed chain first reports it at ITS import statement.  40 runs of `buf lint` on a directory
+// with a 3-cycle give 7 different outputs on the unchanged tree, status 100 each time; with a
+// single targeted file (one chain of tasks) a difference is rare but happens, GOMAXPROCS=1 does
+// not remove it either.  Five runs with five formats then need not show the same annotations, and
+// the cross-format clause - which is about RENDERING one set - cannot be judged between them:
+// every run is judged on its own (status 100, no Failure line, every record decodes with the
+// format's own decoder and lies on an import statement of the cycle).  A file importing itself is
+// found inside one task: reproducible, compared across formats like everything else.
+func (c phaseCase) independentRuns() bool {
+	return c.Imp != nil && c.Imp.Class == "cycle" && len(c.Where) > 1 && (c.Cmd == "lint" || c.Cmd == "build" || c.Cmd == "breaking")
+}
+
+// formTargets: is the workspace-relative .proto file one the input form targets (a root of the compilation)
+func (c phaseCase) formTargets(name string) bool {
+	switch c.Form {
+	case "dir", "dot", "tar":
+		return true
+	case "file", "path":
+		return name == c.file("t")
+	case "fileipf":
+		return name == c.file("t") || name == c.file("s")
+	case "moddir":
+		return strings.HasPrefix(name, "m1/")
+	}
+	return false
+}
+
 // family is a batch of cases whose buf processes are independent of the rest of the run: the
 // processes may run while other parts of the harness do (no *hx.Run is touched by them), the
 // evaluation happens afterwards, in case order.
@@ -502,12 +578,21 @@ func selected(run *hx.Run, idx int) bool { return (run.Only < 0 || run.Only == i
 // phasePrepare lays out the selected cases (indices startIdx, startIdx+1, …) and returns their
 // processes and their evaluation.
 func phasePrepare(run *hx.Run, r *hx.Rand, startIdx int, bufBin, scratch string) family {
-	var jobs []*phaseJob
 	cases := phaseCases(r, run.Thorough(), run.Seed)
+	return phasePrepareCases(run, cases, startIdx, bufBin, func(idx int) string { return filepath.Join(scratch, fmt.Sprintf("ph%d", idx)) })
+}
+
+// phasePrepareCases: rootOf(idx) = the directory above work/ and against/ of the case.
+func phasePrepareCases(run *hx.Run, cases []phaseCase, startIdx int, bufBin string, rootOf func(idx int) string) family {
+	var jobs []*phaseJob
 	for i, c := range cases {
 		if idx := startIdx + i; selected(run, idx) {
+			root := rootOf(idx)
+			if c.Imp != nil {
+				c.Root = root
+			}
 			c.build()
-			jobs = append(jobs, &phaseJob{idx: idx, c: c, root: filepath.Join(scratch, fmt.Sprintf("ph%d", idx))})
+			jobs = append(jobs, &phaseJob{idx: idx, c: c, root: root})
 		}
 	}
 	fam := family{n: len(cases)}
@@ -540,6 +625,9 @@ func phasePrepare(run *hx.Run, r *hx.Rand, startIdx int, bufBin, scratch string)
 
 func (j *phaseJob) materialise() {
 	if err := writeTree(filepath.Join(j.root, "work"), j.c.Files); err != nil {
+		panic(err)
+	}
+	if err := writeTree("/", j.c.Outside); err != nil {
 		panic(err)
 	}
 	if j.c.Cmd == "breaking" {
@@ -591,6 +679,10 @@ func phaseEvaluate(run *hx.Run, j *phaseJob) {
 	wsLike := ws{Cmd: c.Cmd}
 	switch c.Cmd {
 	case "lint", "build", "breaking":
+		if c.independentRuns() {
+			printed, first = evaluateIndependently(run, c, outs, fail)
+			break
+		}
 		fo := formatOutputs{text: annotationStream(wsLike, outs["text"]), jsonOut: annotationStream(wsLike, outs["json"]), msvs: annotationStream(wsLike, outs["msvs"]),
 			junit: annotationStream(wsLike, outs["junit"]), gha: annotationStream(wsLike, outs["github-actions"])}
 		if fo.jsonOut != "" || fo.text != "" || fo.msvs != "" || fo.gha != "" || strings.Contains(fo.junit, "<testcase") {
@@ -631,7 +723,8 @@ func phaseEvaluate(run *hx.Run, j *phaseJob) {
 	if (ref.exit == 0) != (printed == 0 && !failure && !diffShown) {
 		fail("exit-zero-mismatch", fmt.Sprintf("exit=%d but annotations printed=%d failure line=%v difference shown=%v", ref.exit, printed, failure, diffShown))
 	}
-	importFailure := failure && strings.Contains(ref.stderr, "file does not exist") && strings.Contains(ref.stderr, "import") && c.Cmd == "depgraph"
+	// (the message of an ImportNotExistError names the import - unless its path is the empty string)
+	importFailure := failure && strings.Contains(ref.stderr, "file does not exist") && (strings.Contains(ref.stderr, "import") || c.Imp != nil) && c.Cmd == "depgraph"
 	if (ref.exit == 100) != (printed > 0 || diffShown || importFailure) {
 		fail("exit-100-mismatch", fmt.Sprintf("exit=%d but annotations printed=%d difference shown=%v stderr=%.200q", ref.exit, printed, diffShown, ref.stderr))
 	}
@@ -651,7 +744,25 @@ func phaseEvaluate(run *hx.Run, j *phaseJob) {
 	if ref.exit != exp.Exit || failure != exp.Failure {
 		fail("source-problem-verdict", fmt.Sprintf("want exit=%d failure line=%v (%s), got exit=%d failure line=%v, %d annotations, stderr=%.300q", exp.Exit, exp.Failure, exp.Why, ref.exit, failure, printed, ref.stderr))
 	}
-	if exp.File != "" && exp.Exit == 100 && first != nil {
+	if c.Imp != nil && exp.Exit == 100 && first != nil && (c.Cmd == "lint" || c.Cmd == "build" || c.Cmd == "breaking") {
+		// the annotation names the importing file and lies on the import statement (for a cycle:
+		// an import statement of the cycle, whichever file protocompile met last)
+		ok := false
+		var want []string
+		for _, w := range c.Where {
+			wantPath := w.File
+			if c.Side == "against" && c.Form != "tar" {
+				wantPath = "../against/" + w.File
+			}
+			want = append(want, fmt.Sprintf("%s:%d:%d-%d", wantPath, w.Line, 1, w.Cols))
+			if first.Path == wantPath && first.SL == w.Line && first.SC >= 1 && first.SC <= w.Cols {
+				ok = true
+			}
+		}
+		if !ok {
+			fail("source-problem-position", fmt.Sprintf("the first annotation is at %q line %d column %d (%q); the import statement %s was planted at %v (file:line:columns)", first.Path, first.SL, first.SC, first.Msg, c.Stmt, want))
+		}
+	} else if exp.File != "" && exp.Exit == 100 && first != nil {
 		wantPath := exp.File
 		if c.Side == "against" && c.Form != "tar" {
 			wantPath = "../against/" + exp.File
@@ -677,6 +788,13 @@ func phaseEvaluate(run *hx.Run, j *phaseJob) {
 		implOut = "exit=" + strconv.Itoa(ref.exit) + " printed=" + b01(printed > 0) + " failure=" + b01(failure)
 	}
 	run.Case(exp.Model, implOut, ref.exit != 0)
+	if c.Imp != nil {
+		importCounters(run, c, ref.exit)
+		if j.idx%23 == 0 {
+			run.Sample(map[string]any{"family": "import-path", "cmd": c.Cmd, "args": c.Args, "statement": c.Stmt, "in": c.Loc, "exit": ref.exit, "out": ref.stdout + ref.stderr})
+		}
+		return
+	}
 	run.Distinct(fmt.Sprintf("phase:%s:%s:%s:%s:%s:%v", c.Cmd, c.Side, c.Form, c.KindN, c.Loc, c.Multi))
 	run.Count("phase:cmd=" + c.Cmd)
 	run.Count("phase:input=" + c.Form)
